@@ -10,5 +10,7 @@ let () =
        | "lex" -> Mlex.run_lex (List.tl c)
        | "read" -> Mread.run_read (List.tl c)
        | "parse" -> Mparse.run_parse (List.tl c)
+       | "ros1msg" -> Mros.run_ros1msg (List.tl c)
+       | "bag" -> Mbag.run_bag (List.tl c)
        | _ -> failwith "unknown mode");
       print_endline "end") cases
